@@ -25,7 +25,10 @@ def default_literal(t):
     return {'Int32': '1', 'String': '"x"', 'Boolean': 'true'}.get(base, '1')
 
 
-DOC_TEXT = 'Doc %s.'
+# the documentation text of a member, as it is WRITTEN in the spec (escaped backslashes followed by the letters n and t,
+# an escaped quote) and as it is MEANT (what the Api must carry)
+DOC_TEXT = 'Doc %s: C:\\\\new\\\\temp \\"q\\".'
+DOC_MEANT = 'Doc %s: C:\\new\\temp "q".'
 
 
 def member_extras(m, indent):
@@ -143,8 +146,8 @@ def project_type(dt, cur_ns):
 def project_doc(raw):
     if not raw:
         return ''
-    m = __import__('re').match(r'^Doc (\w+)\.$', raw.strip())
-    return m.group(1) if m else 'unexpected:' + raw
+    m = __import__('re').match(r'^Doc (\w+):', raw.strip())
+    return m.group(1) if m and raw.strip() == DOC_MEANT % m.group(1) else 'unexpected:' + raw
 
 
 def project_ann(f):
